@@ -544,7 +544,7 @@ def r16h(ctx: Context) -> None:
     does this the same way - catch the exit, keep its code, hand the code to what builds the answer.  A sibling that
     drops one of the three steps answers 'no failures' for a run that the command line ends with an error."""
     prog = ctx.prog
-    rule = ctx.rule("R16h", "every API method that runs main() catches the exit, keeps its code and hands it to what builds the answer", 4)
+    rule = ctx.rule("R16h", "every API method that runs main() catches the exit, keeps its code and hands it to what builds the answer", 1)
     api = prog.cls(API)
     main = prog.method(MAIN, "main")
     for method in sorted(api.methods.values(), key=lambda f: f.qualname):
@@ -552,6 +552,21 @@ def r16h(ctx: Context) -> None:
             if main not in site.targets:
                 continue
             key = func_key(method, site.node) + " [exit code kept]"
+            returned = [h for t in walk_local(method.node) if isinstance(t, ast.Try) and any(sub is site.node for stmt in t.body for sub in ast.walk(stmt)) for h in t.handlers
+                        if h.name and any(isinstance(r, ast.Return) and r.value is not None and any(isinstance(sub, ast.Attribute) and sub.attr == "code" and isinstance(sub.value, ast.Name) and sub.value.id == h.name for sub in ast.walk(r.value)) for stmt in h.body for r in ast.walk(stmt))]
+            if returned:
+                # a helper that runs main() and answers with the exit code: every caller must take the answer
+                callers = [s for s in prog.callers.get(method.qualname, [])]
+                dropped = [s for s in callers if any(isinstance(stmt, ast.Expr) and stmt.value is s.node for stmt in walk_local(s.caller.node))]
+                if not callers:
+                    rule.fail(key, where(method), f"{method.short} answers with the exit code of the run, but nobody calls it")
+                for caller_site in callers:
+                    ckey = func_key(caller_site.caller, caller_site.node) + " [exit code kept]"
+                    if caller_site in dropped:
+                        rule.fail(ckey, caller_site.where, f"{method.short} answers with the exit code of the run, but {caller_site.caller.short} does not take the answer: its result is built as if the run had ended well")
+                    else:
+                        rule.ok(ckey, f"takes the exit code that {method.short} returns")
+                continue
             handlers = [(t, h) for t in walk_local(method.node) if isinstance(t, ast.Try) and any(sub is site.node for stmt in t.body for sub in ast.walk(stmt))
                         for h in t.handlers if h.type is None or any((dotted(sub) or "").split(".")[-1] in ("SystemExit", "BaseException") for sub in ast.walk(h.type))]
             if not handlers:
